@@ -68,8 +68,12 @@ class Tier:
             return onp.array(v, dtype=onp.complex64 if cplx else onp.float32)
         raise KeyError(kind)
 
-    def kinds_for(self, shape):
-        return ["arr"] if len(shape) else ["0d", "py", "np"]
+    def kinds_for(self, shape, mixing=False):
+        """operand kinds; `mixing` (binary families, thorough tier) adds float32 arrays: structure/kind checks only"""
+        out = ["arr"] if len(shape) else ["0d", "py", "np"]
+        if mixing and not self.quick and not self.cplx and len(shape) in (0, 1, 2):
+            out.append("f32")
+        return out
 
 
 def rank_feat(shape):
